@@ -195,6 +195,11 @@ pub fn gen(c: &Chain, cfg: &Cfg, m: &Menu, rng: &mut Rng, kind: &str) -> Option<
         "disp_swap" => exec("hub", "dispatcher", json!({"k": "swap_to_reward_denom", "bsei_total_bonded": match rng.below(4) { 0 => 0, _ => amount(rng, 0, m.amax) },
             "stsei_total_bonded": match rng.below(4) { 0 => 0, _ => amount(rng, 0, m.amax) }}), json!([])),
         "disp_dispatch" => exec("hub", "dispatcher", json!({"k": "dispatch_rewards"}), json!([])),
+        "set_airdrop" => json!({"k": "set_airdrop", "a": rng.below(m.amax.min(50))}),
+        "airdrop_cfg" => exec("owner", "hub", json!({"k": "update_config", "dispatcher": "", "registry": "", "bsei": "", "stsei": "", "airdrop": "airdrop", "rewards": "", "updater": ""}), json!([])),
+        "airdrop_claim" => exec(if rng.chance(5, 6) { "airdrop" } else { &u }, "hub", json!({"k": "claim_airdrop", "airdrop_token_contract": "airtoken", "airdrop_contract": "airdropc", "airdrop_swap_contract": "airpair"}), json!([])),
+        "airdrop_fab" => exec(&u, "airdrop", json!({"k": "fabricate_claim"}), json!([])),
+        "ugi_hooks" => exec("updater", "hub", json!({"k": "update_global_index", "hooks": 1 + rng.below(2)}), json!([])),
         "index_update" => exec("dispatcher", "reward", json!({"k": "update_global_index"}), json!([])),
         "mint_b" => exec("hub", "bsei", json!({"k": "mint", "recipient": u, "amount": 1 + rng.below(m.amax)}), json!([])),
         "burn_b" => exec("hub", "bsei", json!({"k": "burn", "amount": amount(rng, tokbal(c, "bsei", "hub"), m.amax)}), json!([])),
